@@ -15,11 +15,11 @@ def extKinds : List Kind :=
 def exampleKinds : List Kind := [.parameter, .mediaType, .header]
 
 /-- what the theorems need of the table (decided on the regenerated table in Props/C04.lean): every method
-of `extKinds` calls `validateExtensions` unconditionally; defaults / examples are checked, and the example
+of `extKinds` calls `validateExtensions` under every option set (on some path: `alwaysHolds`); defaults / examples are checked, and the example
 objects visited, exactly unless the option that names them is set; a reference wrapper validates its value;
 the only errors dropped are those of the headers of an encoding object; every component name is checked -/
 def TableOK (T : Table) : Bool :=
-  extKinds.all (fun k => (rowsFor T.checks k "extensions").contains []) &&
+  extKinds.all (fun k => alwaysHolds (rowsFor T.checks k "extensions")) &&
   (rowsFor T.checks .schema "default" == [["-schemaDefaultsValidationDisabled"]]) &&
   (rowsFor T.checks .schema "example" == [["-examplesValidationDisabled"]]) &&
   exampleKinds.all (fun k =>
@@ -31,7 +31,7 @@ def TableOK (T : Table) : Bool :=
   componentPositions.all (fun p => (rowsFor T.checks .components ("identifier:" ++ p)).contains [])
 
 structure TableFacts (T : Table) : Prop where
-  ext : ∀ k ∈ extKinds, (rowsFor T.checks k "extensions").contains [] = true
+  ext : ∀ k ∈ extKinds, alwaysHolds (rowsFor T.checks k "extensions") = true
   sDefault : rowsFor T.checks .schema "default" = [["-schemaDefaultsValidationDisabled"]]
   sExample : rowsFor T.checks .schema "example" = [["-examplesValidationDisabled"]]
   ex : ∀ k ∈ exampleKinds,
@@ -54,6 +54,24 @@ theorem anyHolds_of_nil (o : Opts) (gss : List (List String)) (h : gss.contains 
   rw [List.any_eq_true]
   exact ⟨[], by simpa using h, by simp [guardsHold]⟩
 
+theorem litHolds_two (o : Opts) (l : String) :
+    litHolds o l = litHolds { exDisabled := o.exDisabled, defDisabled := o.defDisabled } l := by
+  unfold litHolds; split <;> rfl
+
+theorem anyHolds_two (o : Opts) (gss : List (List String)) :
+    anyHolds o gss = anyHolds { exDisabled := o.exDisabled, defDisabled := o.defDisabled } gss := by
+  have hl : litHolds o = litHolds { exDisabled := o.exDisabled, defDisabled := o.defDisabled } :=
+    funext (litHolds_two o)
+  unfold anyHolds guardsHold
+  rw [hl]
+
+theorem anyHolds_of_always (o : Opts) (gss : List (List String)) (h : alwaysHolds gss = true) :
+    anyHolds o gss = true := by
+  rw [anyHolds_two]
+  unfold alwaysHolds at h
+  simp only [List.all_cons, List.all_nil, Bool.and_true, Bool.and_eq_true] at h
+  cases he : o.exDisabled <;> cases hd : o.defDisabled <;> simp_all
+
 theorem all_when (o : Opts) (c : Bool) (r k : String) :
     ((when c r k).all fun v => !enabled o v) = (!c || !enabled o ⟨r, k⟩) := by
   cases c <;> simp [when]
@@ -75,7 +93,7 @@ theorem checkExt_eq (T : Table) (o : Opts) (d : Doc) (hT : TableOK T = true) (hk
     checkExt T o d = extKeysOK o d.attrs.exts := by
   have h := (tableFacts T hT).ext d.kind hk
   unfold checkExt hasCheck
-  rw [anyHolds_of_nil o _ h]; rfl
+  rw [anyHolds_of_always o _ h]; rfl
 
 def specialRules : List String :=
   ["extraField", "refSibling", "refExtension", "exampleMismatch", "defaultMismatch", "unknownFormat", "badPattern"]
